@@ -26,6 +26,11 @@ namespace {
 inline void* allocImpl(std::size_t n, std::size_t align, bool nothrow) {
 	using sim::g_alloc;
 	++g_alloc.allocs;
+	if (g_alloc.failCountdown && sim::g_fault.armed && --g_alloc.failCountdown == 0) {
+		++g_alloc.injectedFailures;
+		if (nothrow) return nullptr;
+		throw std::bad_alloc();
+	}
 	if (n > g_alloc.cap) {
 		++g_alloc.capHits;
 		if (nothrow) return nullptr;
